@@ -136,6 +136,28 @@ def spans_for(base, pattern, regex, match_case, count):
             count -= 1
     return out
 
+def op_refs(op):
+    """indices of pool objects an operation refers to"""
+    name = op[0]
+    def operand(x):
+        return [x[1]] if isinstance(x, (list, tuple)) and len(x) == 2 and x[0] == 'obj' else []
+    if name == 'new':
+        return []
+    if name == 'from':
+        return [op[2]]
+    if name == 'join':
+        return [j for x in op[2] for j in operand(x)]
+    if name == 'pad':
+        return [op[2]]
+    if name in ('add', 'iadd'):
+        return [op[1]] + operand(op[2])
+    if name == 'replace':
+        return [op[1]] + operand(op[3])
+    if name == 'eq':
+        return [op[1], op[2]]
+    return [op[1]]
+
+
 class Pool:
     def __init__(self):
         self.objs = []
@@ -151,6 +173,10 @@ class Pool:
         """-> (wire op, ('ok', result objects or None-for-in-place, extra) | ('err', code) | ('hang',))"""
         name = op[0]
         P = self.objs
+        # a (shrunk) replay may refer to objects that no longer exist: that is not an operation at all
+        for j in op_refs(op):
+            if not (isinstance(j, int) and 0 <= j < len(P)):
+                raise KeyError('no object %r' % (j,))
         K = lambda k: AnsiString if k == 0 else AnsiStr
         isstr = lambda i: isinstance(P[i], AnsiStr)
         wire = None
